@@ -690,7 +690,8 @@ def end_size_rule(F, rep):
                 out = ln
         return out
     import valeval
-    order.decide(F, rep, "E5.end-size", "game::End::size", [3], want, allow=(order.GTE, order.LT), cls=valeval.ValueEval)
+    sc = set(x for since, _ in classes for x in since)
+    order.decide(F, rep, "E5.end-size", "game::End::size", [3], want, allow=(order.GTE, order.LT), cls=valeval.ValueEval, spec_consts=sc)
 
 
 def exact_reads_rule(F, rep):
